@@ -163,7 +163,7 @@ func c11Kids(tree *ObjectTree, obj *Object) []*Object {
 
 func c11IsNamedOp(op uint16) bool {
 	switch op {
-	case pOpDevice, pOpProcessor, pOpPowerRes, pOpThermalZone, pOpMethod, pOpName, pOpOpRegion, pOpMutex, pOpEvent, pOpIntNamedField, pOpIntScopeBlock:
+	case pOpDevice, pOpProcessor, pOpPowerRes, pOpThermalZone, pOpMethod, pOpName, pOpOpRegion, pOpMutex, pOpEvent, pOpIntNamedField, pOpIntScopeBlock, pOpDataRegion:
 		return true
 	}
 	return false
@@ -551,6 +551,11 @@ func c11Check(g *c11Gen, res *c11Result, counts map[string]int64) *c11Verdict {
 			x.toks = append(x.toks, nameTok, c11Tok{op: pOpBytePrefix, val: uint64(o.space), hasVal: true, what: "region space"})
 			x.add(o.roff, false, false)
 			x.add(o.rlen, false, false)
+		case c11KDataRegion:
+			x.toks = append(x.toks, nameTok)
+			for _, d := range o.dstr {
+				x.add(d, false, false)
+			}
 		case c11KProcessor:
 			x.toks = append(x.toks, nameTok, c11Tok{op: pOpBytePrefix, val: uint64(o.procID), hasVal: true, what: "processor id"},
 				c11Tok{op: pOpDwordPrefix, val: uint64(o.pblk), hasVal: true, what: "processor block address"},
@@ -598,6 +603,9 @@ func c11Check(g *c11Gen, res *c11Result, counts map[string]int64) *c11Verdict {
 			wantOp := pOpField
 			if f.fieldDecl.kind == 3 {
 				wantOp = pOpIndexField
+			}
+			if f.fieldDecl.kind == 4 {
+				wantOp = pOpBankField
 			}
 			if fd == nil || fd.opcode != wantOp {
 				return fail("L3-field", "field unit does not point back to its %s declaration", pOpcodeName(wantOp))
@@ -685,7 +693,7 @@ func TestVerifC11(t *testing.T) {
 	c11Run = run
 	debug.SetMaxStack(64 << 20)
 	dump := os.Getenv("VERIF_C11_DUMP") != ""
-	n := run.N(1500, 150000)
+	n := run.N(4000, 1200000)
 	feats := map[string]int{}
 	counts := map[string]int64{}
 	run.Cases(n, func(c *vlib.Case) {
